@@ -162,6 +162,9 @@ func ruleR36(c *Ctx) {
 		switch x := l.(type) {
 		case *ast.SelectorExpr:
 			if root, _ := rootVar(info, x); root != nil && m.isTreeRecv(root) {
+				if nn := namedOf(info.TypeOf(x)); nn != nil && m.NodeRef != nil && nn.Obj() == m.NodeRef.Obj() {
+					return "*REF" // the root slot written directly instead of through ref = &t.root
+				}
 				return "t." + x.Sel.Name
 			}
 			return "." + x.Sel.Name
